@@ -212,6 +212,12 @@ def instantiate_plain(ad, did):
             d["gen_use"] = "<i32>"
         elif d["ty"] == "Point":
             d["inner"] = "Point"
+        elif d["ty"] == "Cow<[i32]>":
+            # a lifetime-generic newtype: Nt<'a>(Cow<'a, [i32]>) used at 'static
+            d["inner"] = "::std::borrow::Cow<'a, [i32]>"
+            d["inner_use"] = "::std::borrow::Cow<'static, [i32]>"
+            d["gen_decl"] = "<'a>"
+            d["gen_use"] = "<'static>"
         else:
             d["inner"] = "Vec<i32>"
     return d
